@@ -906,10 +906,13 @@ def run(ctx):
     hist = gen_hist(ctx.rng, cases)
     for c in hist:
         ctx.count(c, True, "history:" + kind(c))
-        r = oracle_hist(c)
+        r = oracle_late(c) if c.get("late") else oracle_hist(c)
         if r:
             ctx.fail(r[0], r[1], c)
-    ctx.coverage["histories (query, translate_rotate, query) compared with never-queried regions"] = len(hist)
+    ctx.coverage["histories (query, translate_rotate, query) compared with never-queried regions"] = \
+        sum(1 for c in hist if not c.get("late"))
+    ctx.coverage["goal regions edited after construction compared with regions built in one go"] = \
+        sum(1 for c in hist if c.get("late"))
     corr(ctx, cases)
     if (ctx.proof_breaks or ctx.corr_breaks) and not ctx.failures:
         ctx.log(f"proof/correspondence broke ({len(ctx.proof_breaks)}/{len(ctx.corr_breaks)}); widening the search")
